@@ -73,6 +73,14 @@ pub enum Topo {
     /// other still remembers it), one more exchange from the SAME local socket. Judged on the
     /// FIRST transmission after the gap: it has to reach the target (no retransmission needed)
     IdleGap,
+    /// real-time scenario (both tiers): three local clients (UDP remote: three sockets, one
+    /// listening port; SOCKS5: one association each). A, then B, make one exchange each; A goes
+    /// silent; B makes one exchange per second for 2 * UDP_PRUNE_TIMEOUT + 3 s (A is certainly
+    /// pruned on the client side, B never is); then a NEWCOMER C (its first datagram ever) makes
+    /// one exchange, then B one more, then C one more. Every reply has to arrive at the socket
+    /// that sent the request: a flow table that has shrunk must not hand the newcomer the flow of
+    /// a client that is still alive
+    PruneThenNewcomer,
     /// SOCKS5 only: one association, one exchange, then ONE malformed datagram sent to the relay
     /// address from ANOTHER local socket, then two more exchanges of the legitimate client: they
     /// must work (anybody can send anything to a UDP port). The three variants are the strays:
@@ -230,6 +238,18 @@ pub const FAMILIES_FIRST_TX_MS: u64 = 500;
 pub const GAP_EXTRA_S: u64 = 2;
 /// how long the first datagram after the idle gap may take to the target (no retransmission before)
 pub const GAP_FIRST_TX_MS: u64 = 2000;
+/// one-pruned-then-newcomer scenario: how long client B goes on (one exchange per second) beyond
+/// 2 * UDP_PRUNE_TIMEOUT after its first exchange
+pub const NEWCOMER_EXTRA_S: u64 = 3;
+/// ... how long each of those keep-alive exchanges waits for its reply (unanswered ones are not
+/// retransmitted: the next one follows on the second)
+pub const NEWCOMER_KEEPALIVE_WAIT_MS: u64 = 900;
+/// ... the scenario did what it is meant to do when no two consecutive datagrams of B were further
+/// apart than UDP_PRUNE_TIMEOUT minus this (B was never idle long enough to be pruned) and A had
+/// been silent for at least 2 * UDP_PRUNE_TIMEOUT when C sent its first datagram
+pub const NEWCOMER_PRUNE_MARGIN_S: u64 = 2;
+/// ... what its violation keys end in
+pub const NEWCOMER_KEY_SUFFIX: &str = ".after-prune";
 /// length of the payloads of the unsendable-destination scenarios
 pub const UNSEND_LEN: usize = 32;
 /// how long target A of an unsendable-destination scenario waits before it answers question-1
@@ -267,7 +287,7 @@ impl Topo {
     /// the topologies of the ordinary matrix
     pub const ALL: [Topo; 6] = [Topo::One, Topo::Three, Topo::Shared, Topo::TwoPorts, Topo::TwoHosts, Topo::Varying];
     /// the real-time topologies (about 2 * UDP_PRUNE_TIMEOUT of wall time each, mostly asleep)
-    pub const SLOW: [Topo; 3] = [Topo::Steady, Topo::Idle, Topo::IdleGap];
+    pub const SLOW: [Topo; 4] = [Topo::PruneThenNewcomer, Topo::Steady, Topo::Idle, Topo::IdleGap];
     /// the stray-datagram topologies (SOCKS5 UDP only, one payload length, both tiers)
     pub const STRAY: [Topo; 3] = [Topo::StrayShort, Topo::StrayAtyp, Topo::StrayTruncated];
     /// the two-address-families topologies (SOCKS5 UDP with IP-typed headers only, one payload
@@ -318,6 +338,9 @@ impl Topo {
     }
     /// what the violation keys of this topology end in (the ordinary topologies: nothing)
     pub fn key_suffix(self) -> &'static str {
+        if self == Topo::PruneThenNewcomer {
+            return NEWCOMER_KEY_SUFFIX;
+        }
         match self.dual_listener() {
             Some(false) => ".dual-stack-listener-ipv4-app",
             Some(true) => ".dual-stack-listener-ipv6-app",
@@ -342,7 +365,7 @@ impl Topo {
         self.stray().is_some() || self.two_families() || self.unsendable().is_some()
     }
     pub fn slow(self) -> bool {
-        matches!(self, Topo::Steady | Topo::Idle | Topo::IdleGap)
+        matches!(self, Topo::PruneThenNewcomer | Topo::Steady | Topo::Idle | Topo::IdleGap)
     }
     /// the malformed datagram of a stray-datagram topology, and its name inside violation keys
     pub fn stray(self) -> Option<(&'static [u8], &'static str)> {
@@ -364,6 +387,7 @@ impl Topo {
             Topo::Steady => "steady-sender-silent-target",
             Topo::Idle => "idle-longer-than-prune-timeout",
             Topo::IdleGap => "idle-between-one-and-two-prune-timeouts",
+            Topo::PruneThenNewcomer => "3-clients-first-one-pruned-second-one-active-then-newcomer",
             Topo::StrayShort => "stray-datagram-2-bytes-to-relay",
             Topo::StrayAtyp => "stray-datagram-unknown-atyp-to-relay",
             Topo::StrayTruncated => "stray-datagram-truncated-ipv4-header-to-relay",
@@ -405,6 +429,8 @@ impl UdpCase {
             "kind": "udp", "entry": self.kind.name(), "payload_len": self.size, "topology": self.topo.name(),
             "exchanges_per_leg": self.exchanges(),
             "udp_prune_timeout_s": prune_timeout().as_secs(),
+            "exchanges_of_each_leg": (self.topo == Topo::PruneThenNewcomer).then(|| (0..self.legs().len()).map(|l| self.exchanges_of(l)).collect::<Vec<_>>()),
+            "history": (self.topo == Topo::PruneThenNewcomer).then(|| format!("leg 0 = client A, leg 1 = client B, leg 2 = client C (three local sockets; UDP remote: one listening port, SOCKS5: one association each, all made at the start). A: exchange 0; B: exchange 0; A is silent from here on; B: exchanges 1..={n}, one per second (each waits {NEWCOMER_KEEPALIVE_WAIT_MS} ms for its reply, no retransmission); then C: exchange 0 (its first datagram ever); B: exchange {}; C: exchange 1. Every exchange but B's 1..={n} is retransmitted with the usual loss tolerance", self.newcomer_keepalives() + 1, n = self.newcomer_keepalives())),
             "stray_datagram_hex": self.topo.stray().map(|(d, _)| vcommon::report::hex(d)),
             "socks_listener": self.topo.dual_listener().map(|_| "[::]:PORT (remote specification [::]:PORT:socks; the UDP relay of an association is bound to [::]:0)"),
             "application_uses": self.topo.dual_listener().map(|v6| if v6 { "[::1] for the control connection, for its UDP socket and (BND.ADDR being unspecified) for the relay address" } else { "127.0.0.1 for the control connection, for its UDP socket and (BND.ADDR being unspecified) for the relay address" }),
@@ -427,8 +453,8 @@ impl UdpCase {
     pub fn legs(&self) -> Vec<(usize, usize)> {
         match (self.topo, self.kind.socks()) {
             (Topo::One | Topo::Varying, _) => vec![(0, 0)],
-            (Topo::Three, false) => vec![(0, 0), (1, 0), (2, 0)],
-            (Topo::Three, true) => vec![(0, 0), (1, 1), (2, 2)],
+            (Topo::Three | Topo::PruneThenNewcomer, false) => vec![(0, 0), (1, 0), (2, 0)],
+            (Topo::Three | Topo::PruneThenNewcomer, true) => vec![(0, 0), (1, 1), (2, 2)],
             (Topo::Shared, _) => vec![(0, 0), (0, 1)],
             (Topo::TwoPorts | Topo::TwoHosts | Topo::Steady | Topo::Idle | Topo::IdleGap, _) => vec![(0, 0)],
             (Topo::StrayShort | Topo::StrayAtyp | Topo::StrayTruncated, _) => vec![(0, 0)],
@@ -439,9 +465,24 @@ impl UdpCase {
             (Topo::OverlongHost256 | Topo::OverlongHost255, _) => vec![(0, 0)],
         }
     }
-    /// number of request datagrams (with distinct payloads) a leg sends
+    /// one-pruned-then-newcomer scenario: number of keep-alive exchanges of client B
+    pub fn newcomer_keepalives(&self) -> usize {
+        (2 * prune_timeout().as_secs() + NEWCOMER_EXTRA_S) as usize
+    }
+    /// number of request datagrams (with distinct payloads) leg `leg` sends (the same for every
+    /// leg, except in the one-pruned-then-newcomer scenario)
+    pub fn exchanges_of(&self, leg: usize) -> usize {
+        match (self.topo, leg) {
+            (Topo::PruneThenNewcomer, 0) => 1,
+            (Topo::PruneThenNewcomer, 2) => 2,
+            _ => self.exchanges(),
+        }
+    }
+    /// number of request datagrams (with distinct payloads) a leg sends (the leg that sends most)
     pub fn exchanges(&self) -> usize {
         match self.topo {
+            // client B: its first exchange, the keep-alive exchanges, its last exchange
+            Topo::PruneThenNewcomer => self.newcomer_keepalives() + 2,
             // one per second at t = 0, 1, ..., 2T+3
             Topo::Steady => 2 * prune_timeout().as_secs() as usize + 4,
             Topo::Idle | Topo::IdleGap => 2,
@@ -543,6 +584,13 @@ pub struct UdpStats {
     pub unsendable_judged: u64,
     /// ... of which: the answer reached the local client only after `UNSEND_LOST_AFTER_MS` (late, not lost)
     pub unsendable_answer_late: u64,
+    /// one-pruned-then-newcomer scenarios in which the history was what it is meant to be: no two
+    /// consecutive datagrams of client B further apart than UDP_PRUNE_TIMEOUT - `NEWCOMER_PRUNE_MARGIN_S`
+    /// (B cannot have been pruned) and client A silent for at least 2 * UDP_PRUNE_TIMEOUT when the
+    /// newcomer C sent its first datagram (A was pruned), and all of C's and B's later exchanges were made
+    pub newcomer_judged: u64,
+    /// ... keep-alive exchanges of client B that had no reply when the next one was due (tolerated)
+    pub newcomer_keepalives_unanswered: u64,
     /// overlong-target-host scenarios that went through their whole sequence without a finding
     pub overlong_completed: u64,
     /// ... bytes echoed over the TCP connections of those scenarios (before and after the datagram)
@@ -690,11 +738,18 @@ struct LegResult {
     /// (see `UdpStats::unsendable_judged`), and the answer to question-1 came late
     unsendable_judged: bool,
     unsendable_late: bool,
+    /// one-pruned-then-newcomer scenario: the scenario ended in another leg (which carries the
+    /// finding); the rest of this leg's exchanges were never attempted
+    cut_short: bool,
+    /// ... (leg B) the preconditions held: see `UdpStats::newcomer_judged`
+    newcomer_judged: bool,
+    /// ... (leg B) keep-alive exchanges that had no reply when the next one was due
+    keepalives_unanswered: u64,
 }
 
 impl LegResult {
     fn new() -> Self {
-        LegResult { sent: 0, sent_to: [0; 2], retrans: 0, completed: 0, wrong: 0, missing: None, first_tx_after_gap_lost: None, family_lost: Vec::new(), unsendable: Vec::new(), unsendable_judged: false, unsendable_late: false }
+        LegResult { sent: 0, sent_to: [0; 2], retrans: 0, completed: 0, wrong: 0, missing: None, first_tx_after_gap_lost: None, family_lost: Vec::new(), unsendable: Vec::new(), unsendable_judged: false, unsendable_late: false, cut_short: false, newcomer_judged: false, keepalives_unanswered: 0 }
     }
 }
 
@@ -1549,6 +1604,144 @@ async fn run_steady(case: UdpCase, sock: Arc<UdpSocket>, log: Log, note: Arc<Not
     res
 }
 
+/// The one-pruned-then-newcomer scenario (see `Topo::PruneThenNewcomer`). `ios`: the local ends
+/// of clients A, B, C. One task plays the whole history; the result is one `LegResult` per client.
+///
+/// Judgement: the generic oracle of `run_udp` judges every datagram any local socket received (a
+/// reply at another socket than the one that sent the request: `udp.reply.misdelivered.*`, not a
+/// deadline-type failure). Here: an exchange of A, B (first and last) or C that gets no reply
+/// after the usual retransmissions ends the scenario with `udp.reply.missing.<family>` (a
+/// deadline-type failure: it counts only when it shows again with the scenario run alone); while
+/// an exchange after the keep-alive phase is waiting, the other clients' logs are watched: the
+/// expected reply showing up THERE is an answer too (a wrong one; no point in retransmitting).
+/// All keys of this topology end in `NEWCOMER_KEY_SUFFIX`.
+async fn run_prune_newcomer(case: UdpCase, ios: Vec<LegIo>, target: (SocketAddr, Option<String>), short: bool) -> Vec<LegResult> {
+    let fam = case.kind.family();
+    let socks = case.kind.socks();
+    let waits = if short { WAITS_SHORT_MS } else { WAITS_MS };
+    let n_keep = case.newcomer_keepalives();
+    let names = ["A", "B", "C"];
+    let mut res: Vec<LegResult> = (0..3).map(|_| LegResult::new()).collect();
+    let mut earlier: Vec<Vec<Vec<u8>>> = vec![Vec::new(); 3];
+    if ios.len() != 3 {
+        res[0].missing = Some(("machinery".into(), "the one-pruned-then-newcomer scenario needs three local clients".into(), false));
+        return res;
+    }
+    let wire_of = |req: &[u8]| if socks { proto::build_udp_request(target.0, target.1.as_deref(), req) } else { req.to_vec() };
+    // the expected reply is in the log of ANOTHER local client
+    let elsewhere = |leg: usize, want: &[u8]| (0..3).filter(|o| *o != leg).find(|o| lk(&ios[*o].log).iter().any(|(_, raw)| client_view(socks, raw).is_ok_and(|p| p == want)));
+    let started = Instant::now();
+    let mut history: Vec<String> = Vec::new();
+    // (leg, seq, watch the other clients' logs)
+    let mut plan: Vec<(usize, usize, bool)> = vec![(0, 0, false), (1, 0, false)];
+    plan.extend((1..=n_keep).map(|k| (1, k, false)));
+    plan.extend([(2, 0, true), (1, n_keep + 1, true), (2, 1, true)]);
+    // when A's exchange was answered (A is silent from then on), when B's first exchange was
+    // answered (the keep-alive schedule counts from there), B's last transmission and the
+    // longest time between two of them, A's silence when C first sent
+    let mut a_done: Option<Instant> = None;
+    let mut b_first_done: Option<Instant> = None;
+    let mut b_last_tx: Option<Instant> = None;
+    let mut b_max_gap = Duration::ZERO;
+    let mut a_silence_at_c: Option<Duration> = None;
+    for (leg, seq, watch) in plan {
+        let keepalive = leg == 1 && (1..=n_keep).contains(&seq);
+        if let (true, Some(t)) = (keepalive, b_first_done) {
+            // absolute schedule: the gaps never add up to more than a second each
+            tokio::time::sleep_until(tokio::time::Instant::from_std(t + Duration::from_secs(seq as u64))).await;
+        }
+        let io = &ios[leg];
+        let req = request(case.len_at(seq), leg, seq);
+        let want = reply_of(&req, MASKS[0]);
+        let wire = wire_of(&req);
+        let base = lk(&io.log).len();
+        let now = Instant::now();
+        if leg == 1 {
+            if let Some(t) = b_last_tx {
+                b_max_gap = b_max_gap.max(now.saturating_duration_since(t));
+            }
+        }
+        if (leg, seq) == (2, 0) {
+            a_silence_at_c = a_done.map(|t| now.saturating_duration_since(t));
+        }
+        let mut ok = None;
+        if keepalive {
+            ok = transmit(io, &wire, &want, seq, base, &earlier[leg], &[NEWCOMER_KEEPALIVE_WAIT_MS], 0, 0, &mut res[leg]).await;
+            b_last_tx = Some(now);
+            if ok.is_none() {
+                // tolerated: the next one follows (a reply that comes late is still judged by the oracle)
+                res[leg].keepalives_unanswered += 1;
+                ok = Some(true);
+            }
+        } else {
+            for (k, w) in waits.iter().enumerate() {
+                if leg == 1 {
+                    let t = Instant::now();
+                    if let Some(l) = b_last_tx {
+                        b_max_gap = b_max_gap.max(t.saturating_duration_since(l));
+                    }
+                    b_last_tx = Some(t);
+                }
+                ok = transmit(io, &wire, &want, seq, base, &earlier[leg], &[*w], k, 0, &mut res[leg]).await;
+                if ok.is_some() {
+                    break;
+                }
+                if watch {
+                    if let Some(o) = elsewhere(leg, &want) {
+                        history.push(format!("the reply to exchange {seq} of {} showed up at the socket of {} after {} transmission(s)", names[leg], names[o], k + 1));
+                        ok = Some(false);
+                        break;
+                    }
+                }
+            }
+        }
+        let at_ms = started.elapsed().as_millis();
+        match ok {
+            None => {
+                let silence = a_silence_at_c.map_or_else(|| "the newcomer C has not sent anything yet".to_string(), |d| format!("A had been silent for {} ms when the newcomer C sent its first datagram", d.as_millis()));
+                res[leg].missing = Some((
+                    format!("udp.reply.missing.{fam}"),
+                    format!(
+                        "three local clients A, B, C ({}); history so far: [{}]; then exchange {seq} of client {} ({} bytes) got no reply after {} transmissions over {} ms, +{at_ms} ms into the scenario, and the reply did not show up at another client's socket either (UDP_PRUNE_TIMEOUT is {} s; {silence}; B's datagrams were never more than {} ms apart; {} of B's keep-alive exchanges were unanswered when the next one was due)",
+                        if socks { "one SOCKS5 UDP association each" } else { "three sockets talking to the same UDP remote" },
+                        history.join("; "),
+                        names[leg],
+                        case.len_at(seq),
+                        waits.len(),
+                        waits.iter().sum::<u64>(),
+                        prune_timeout().as_secs(),
+                        b_max_gap.as_millis(),
+                        res[1].keepalives_unanswered
+                    ),
+                    true,
+                ));
+                for (l, r) in res.iter_mut().enumerate() {
+                    r.cut_short = l != leg;
+                }
+                return res;
+            }
+            Some(true) => {}
+            Some(false) => res[leg].wrong += 1,
+        }
+        earlier[leg].push(want);
+        res[leg].completed += 1;
+        match (leg, seq) {
+            (0, 0) => a_done = Some(Instant::now()),
+            (1, 0) => b_first_done = Some(Instant::now()),
+            _ => {}
+        }
+        if !keepalive {
+            history.push(format!("+{at_ms} ms: exchange {seq} of {} done", names[leg]));
+        } else if seq == n_keep {
+            history.push(format!("+{at_ms} ms: exchanges 1..={n_keep} of B, one per second ({} without a reply when the next one was due)", res[1].keepalives_unanswered));
+        }
+        tokio::task::yield_now().await;
+    }
+    let margin = Duration::from_secs(NEWCOMER_PRUNE_MARGIN_S);
+    res[1].newcomer_judged = b_max_gap + margin < prune_timeout() && a_silence_at_c.is_some_and(|d| d >= 2 * prune_timeout());
+    res
+}
+
 /// Run one UDP matrix point once.
 pub async fn run_udp(envr: &Env, case: &UdpCase, deadline_s: u64, short_waits: bool) -> UdpOutcome {
     let t0 = Instant::now();
@@ -1734,7 +1927,15 @@ pub async fn run_udp(envr: &Env, case: &UdpCase, deadline_s: u64, short_waits: b
             })
             .collect();
         let mut handles = Vec::new();
+        // (one task plays the whole history of the one-pruned-then-newcomer scenario)
+        let whole = (case.topo == Topo::PruneThenNewcomer).then(|| {
+            let ios: Vec<LegIo> = legs.iter().map(|(si, ei)| LegIo { sock: socks_v[*si].clone(), log: logs[*si].clone(), note: notes[*si].clone(), socks, entry: entry_addrs[*ei] }).collect();
+            tokio::spawn(run_prune_newcomer(case.clone(), ios, targets[0].clone(), short_waits))
+        });
         for (l, (si, ei)) in legs.iter().enumerate() {
+            if whole.is_some() {
+                break;
+            }
             if case.topo == Topo::Steady {
                 handles.push(tokio::spawn(run_steady(case.clone(), socks_v[*si].clone(), logs[*si].clone(), notes[*si].clone(), entry_addrs[*ei], targets[0].clone(), tsocks[0].clone(), tlogs[0].clone(), short_waits)));
                 continue;
@@ -1748,6 +1949,12 @@ pub async fn run_udp(envr: &Env, case: &UdpCase, deadline_s: u64, short_waits: b
         }
         for h in handles {
             leg_results.push(h.await.ok());
+        }
+        if let Some(h) = whole {
+            match h.await {
+                Ok(v) => leg_results.extend(v.into_iter().map(Some)),
+                Err(_) => leg_results.extend(legs.iter().map(|_| None)),
+            }
         }
         // stragglers (duplicates, misrouted copies) get a moment to arrive
         tokio::time::sleep(Duration::from_millis(40)).await;
@@ -1790,8 +1997,7 @@ pub async fn run_udp(envr: &Env, case: &UdpCase, deadline_s: u64, short_waits: b
     }
 
     // ---- oracle: the targets' logs
-    let nx = case.exchanges();
-    let all_lq: Vec<(usize, usize)> = (0..legs.len()).flat_map(|l| (0..nx).map(move |q| (l, q))).collect();
+    let all_lq: Vec<(usize, usize)> = (0..legs.len()).flat_map(|l| (0..case.exchanges_of(l)).map(move |q| (l, q))).collect();
     let tl: Vec<(SocketAddr, Vec<u8>)> = tlogs.iter().flat_map(|l| lk(l).clone()).collect();
     let mut sources = HashSet::new();
     for (k, tlog) in tlogs.iter().enumerate() {
@@ -1902,7 +2108,7 @@ pub async fn run_udp(envr: &Env, case: &UdpCase, deadline_s: u64, short_waits: b
             } else {
                 raw
             };
-            let issued = leg_results[*leg].as_ref().map_or(0, |r| (r.completed + 1).min(nx));
+            let issued = leg_results[*leg].as_ref().map_or(0, |r| (r.completed + 1).min(case.exchanges_of(*leg)));
             if (0..issued).any(|q| reply_of(&request(case.len_at(q), *leg, q), MASKS[case.target_idx(*leg, q)]) == payload) {
                 stats.replies_verified += 1;
                 continue;
@@ -1945,7 +2151,10 @@ pub async fn run_udp(envr: &Env, case: &UdpCase, deadline_s: u64, short_waits: b
             push("machinery".into(), format!("leg {l} task failed"), false);
             continue;
         };
+        let nx = case.exchanges_of(l);
         stats.retransmissions += r.retrans;
+        stats.newcomer_judged += u64::from(r.newcomer_judged);
+        stats.newcomer_keepalives_unanswered += r.keepalives_unanswered;
         completed.push(r.completed);
         if recv_per_leg[l] > r.sent {
             push(format!("udp.reply.unsolicited.{fam}"), format!("leg {l} sent {} datagrams but received {} from its entry point", r.sent, recv_per_leg[l]), false);
@@ -1972,7 +2181,7 @@ pub async fn run_udp(envr: &Env, case: &UdpCase, deadline_s: u64, short_waits: b
         }
         stats.unsendable_judged += u64::from(r.unsendable_judged);
         stats.unsendable_answer_late += u64::from(r.unsendable_late);
-        if r.completed < nx {
+        if r.completed < nx && !r.cut_short {
             if let Some((k, d, dl)) = &r.missing {
                 push(k.clone(), format!("{d}; datagrams received by the local client from its entry point: {}", recv_per_leg[l]), *dl);
                 continue;
